@@ -143,6 +143,7 @@ pub fn generate(seed: u64, idx: u64, thorough: bool) -> Run {
         let bit_count = if thorough { bit_count } else { bit_count.min(5) };
         Scenario::Prep(PrepSpec {
             n,
+            rank: if rng.chance(250) { 2 } else { 1 },
             word_bits,
             bit_start,
             bit_count,
@@ -573,6 +574,7 @@ pub fn miri_main(args: &[String]) -> ! {
         "prep" => {
             let mut s = PrepSpec {
                 n,
+                rank: 1,
                 word_bits: 8,
                 bit_start: 1,
                 bit_count: 3,
